@@ -1,5 +1,633 @@
-//! Translator targets owned by property C04.
-#[allow(unused_imports)]
-use super::{Gen, Target};
+//! Translator targets owned by property C04 (the signature gate).
+//!
+//! `gate` → `Generated/Gate.lean`:
+//!  * the `TypeId` constants of `check_roto_type` (`let U16: TypeId =
+//!    TypeId::of::<u16>();` ↦ `def U16 : TypeId := .prim "u16"`),
+//!  * the leaf-name guard table (`x if x == U16 => "u16"`) in source order,
+//!  * the whole body of `check_roto_type` as a structurally recursive Lean
+//!    function over `RotoV.Gate.RustTy` (early returns, `let … else`, `?`,
+//!    slice patterns and the `match rust_type.description` arms in source
+//!    order),
+//!  * the shape of `RotoFunc::check_args` inside the `func!` macro (arity
+//!    slice pattern, per-argument loop) and the arities it is instantiated at,
+//!  * the gate steps of `Module::get_function` in source order.
+//!
+//! Everything outside the recognised subset is an extraction failure.
 
-pub const TARGETS: &[Target] = &[];
+use super::{Gen, Target};
+use crate::find;
+use quote::ToTokens;
+use std::collections::HashSet;
+use std::path::Path;
+use syn::{BinOp, Expr, Lit, Pat, Stmt};
+
+pub const TARGETS: &[Target] = &[("gate", "Gate", gate as Gen)];
+
+type R = Result<String, String>;
+
+fn toks(t: &impl ToTokens) -> String {
+    t.to_token_stream().to_string().replace(' ', "")
+}
+
+fn path_str(p: &syn::Path) -> String {
+    p.segments
+        .iter()
+        .map(|s| s.ident.to_string())
+        .collect::<Vec<_>>()
+        .join("::")
+}
+
+/// A string literal as a Lean `Ident` (list of code points).
+fn lit_ident(s: &str) -> String {
+    let cps: Vec<String> = s.chars().map(|c| (c as u32).to_string()).collect();
+    format!("([{}] /- {:?} -/)", cps.join(", "), s)
+}
+
+#[derive(Default)]
+struct Tr {
+    /// `let NAME: TypeId = TypeId::of::<T>();`
+    consts: Vec<(String, String)>,
+    /// arms `x if x == K => "name"` of the leaf table, in source order
+    leaf_arms: Vec<(String, String)>,
+    /// variables bound by a `Type::Name(v)` pattern
+    typename_vars: HashSet<String>,
+    registry_lookup: bool,
+}
+
+const ERR_RET: &str = "returnErr(error_message)";
+
+impl Tr {
+    fn is_const(&self, s: &str) -> bool {
+        self.consts.iter().any(|c| c.0 == s)
+    }
+
+    // ------------------------------------------------------------ patterns
+    fn pat(&mut self, p: &Pat) -> R {
+        Ok(match p {
+            Pat::Wild(_) => "_".into(),
+            Pat::Ident(i) if i.subpat.is_none() => i.ident.to_string(),
+            Pat::Reference(r) => self.pat(&r.pat)?,
+            Pat::Slice(s) => {
+                let mut xs = vec![];
+                for e in &s.elems {
+                    if matches!(e, Pat::Rest(_)) {
+                        return Err(format!("unsupported: rest pattern in slice `{}`", toks(p)));
+                    }
+                    xs.push(self.pat(e)?);
+                }
+                format!("[{}]", xs.join(", "))
+            }
+            Pat::Path(pp) => match path_str(&pp.path).as_str() {
+                "TypeDescription::Leaf" => "(RustTy.leaf _)".into(),
+                "Type::Unit" => "RotoTy.unit".into(),
+                "Type::Never" => "RotoTy.never".into(),
+                other => return Err(format!("unsupported path pattern {other}")),
+            },
+            Pat::TupleStruct(ts) => {
+                let head = path_str(&ts.path);
+                let all_wild = ts.elems.iter().all(|e| matches!(e, Pat::Wild(_)));
+                match head.as_str() {
+                    "Type::Name" => {
+                        let [Pat::Ident(v)] = &ts.elems.iter().collect::<Vec<_>>()[..] else {
+                            return Err("Type::Name pattern must bind one variable".into());
+                        };
+                        let v = v.ident.to_string();
+                        self.typename_vars.insert(v.clone());
+                        format!("(RotoTy.name {v}_name {v}_arguments)")
+                    }
+                    "Type::IntVar" if all_wild && ts.elems.len() == 2 => "RotoTy.intVar".into(),
+                    "Type::FloatVar" if all_wild && ts.elems.len() == 1 => "RotoTy.floatVar".into(),
+                    "TypeDescription::Val" if all_wild && ts.elems.len() == 1 => "(RustTy.val _)".into(),
+                    "TypeDefinition::Runtime" | "TypeDescription::Verdict" | "TypeDescription::Result"
+                    | "TypeDescription::Option" | "TypeDescription::List" => {
+                        let (ctor, n) = match head.as_str() {
+                            "TypeDefinition::Runtime" => ("TypeDefinition.runtime", 2),
+                            "TypeDescription::Verdict" => ("RustTy.verdict", 2),
+                            "TypeDescription::Result" => ("RustTy.result", 2),
+                            "TypeDescription::Option" => ("RustTy.option", 1),
+                            _ => ("RustTy.list", 1),
+                        };
+                        if ts.elems.len() != n {
+                            return Err(format!("{head}: expected {n} sub-patterns"));
+                        }
+                        let mut xs = vec![];
+                        for e in &ts.elems {
+                            xs.push(self.pat(e)?);
+                        }
+                        format!("({ctor} {})", xs.join(" "))
+                    }
+                    _ => return Err(format!("unsupported pattern `{}`", toks(p))),
+                }
+            }
+            other => return Err(format!("unsupported pattern `{}`", toks(other))),
+        })
+    }
+
+    // --------------------------------------------------------------- values
+    fn val(&mut self, e: &Expr) -> R {
+        Ok(match e {
+            Expr::Paren(p) => self.val(&p.expr)?,
+            Expr::Group(p) => self.val(&p.expr)?,
+            Expr::Reference(r) => self.val(&r.expr)?,
+            Expr::Lit(l) => match &l.lit {
+                Lit::Str(s) => lit_ident(&s.value()),
+                other => return Err(format!("unsupported literal {}", toks(other))),
+            },
+            Expr::Path(p) => {
+                let s = path_str(&p.path);
+                match s.as_str() {
+                    "ScopeRef::GLOBAL" => "ScopeRef.GLOBAL".into(),
+                    "Type::Unit" => "RotoTy.unit".into(),
+                    "Type::Never" => "RotoTy.never".into(),
+                    _ if p.path.segments.len() == 1 => s,
+                    _ => return Err(format!("unsupported path {s}")),
+                }
+            }
+            Expr::Field(f) => {
+                let member = f.member.to_token_stream().to_string();
+                let base = toks(&f.base);
+                if self.typename_vars.contains(&base) && (member == "name" || member == "arguments") {
+                    format!("{base}_{member}")
+                } else if member == "type_id" {
+                    format!("(RustTy.type_id {})", self.val(&f.base)?)
+                } else {
+                    return Err(format!("unsupported field access `{}`", toks(e)));
+                }
+            }
+            Expr::Index(ix) => {
+                if toks(&ix.index) != ".." {
+                    return Err(format!("unsupported index `{}`", toks(e)));
+                }
+                self.val(&ix.expr)?
+            }
+            Expr::MethodCall(mc) => {
+                let name = mc.method.to_string();
+                let recv = toks(&mc.receiver);
+                match (recv.as_str(), name.as_str(), mc.args.len()) {
+                    ("type_info", "resolve", 1) => {
+                        format!("(TypeInfo.resolve type_info {})", self.val(&mc.args[0])?)
+                    }
+                    ("type_info", "resolve_type_name", 1) => {
+                        format!("(type_info.resolve_type_name {})", self.val(&mc.args[0])?)
+                    }
+                    (_, "into", 0) => self.val(&mc.receiver)?,
+                    _ => return Err(format!("unsupported method call `{}`", toks(e))),
+                }
+            }
+            Expr::Call(c) => {
+                let callee = toks(&c.func);
+                match (callee.as_str(), c.args.len()) {
+                    ("Type::named", 2) => format!(
+                        "(RotoTy.named {} {})",
+                        self.val(&c.args[0])?,
+                        self.val(&c.args[1])?
+                    ),
+                    ("Vec::new", 0) => "[]".into(),
+                    _ => return Err(format!("unsupported call `{}`", toks(e))),
+                }
+            }
+            Expr::Struct(s) => {
+                if path_str(&s.path) != "ResolvedName" || s.rest.is_some() {
+                    return Err(format!("unsupported struct literal `{}`", toks(e)));
+                }
+                let mut scope = None;
+                let mut ident = None;
+                for f in &s.fields {
+                    match f.member.to_token_stream().to_string().as_str() {
+                        "scope" => scope = Some(self.val(&f.expr)?),
+                        "ident" => ident = Some(self.val(&f.expr)?),
+                        other => return Err(format!("ResolvedName: unknown field {other}")),
+                    }
+                }
+                format!(
+                    "(ResolvedName.mk {} {})",
+                    scope.ok_or("ResolvedName without scope")?,
+                    ident.ok_or("ResolvedName without ident")?
+                )
+            }
+            other => return Err(format!("unsupported expression `{}`", toks(other))),
+        })
+    }
+
+    fn cond(&mut self, e: &Expr) -> R {
+        match e {
+            Expr::Paren(p) => self.cond(&p.expr),
+            Expr::Binary(b) => {
+                let op = match b.op {
+                    BinOp::Eq(_) => "==",
+                    BinOp::Ne(_) => "!=",
+                    _ => return Err(format!("unsupported condition `{}`", toks(e))),
+                };
+                Ok(format!("({} {op} {})", self.val(&b.left)?, self.val(&b.right)?))
+            }
+            _ => Err(format!("unsupported condition `{}`", toks(e))),
+        }
+    }
+
+    // ---------------------------------------------------------------- tails
+    fn call_gate(&mut self, e: &Expr) -> R {
+        let Expr::Call(c) = e else {
+            return Err(format!("expected a call to check_roto_type, found `{}`", toks(e)));
+        };
+        if toks(&c.func) != "check_roto_type" || c.args.len() != 3 || toks(&c.args[0]) != "type_info" {
+            return Err(format!("unsupported call `{}`", toks(e)));
+        }
+        Ok(format!(
+            "(checkRotoType type_info {} {})",
+            self.val(&c.args[1])?,
+            self.val(&c.args[2])?
+        ))
+    }
+
+    fn tail(&mut self, e: &Expr) -> R {
+        let t = toks(e);
+        if t == "Ok(())" {
+            return Ok("Res.ok".into());
+        }
+        if t == "Err(error_message)" {
+            return Ok("Res.err".into());
+        }
+        match e {
+            Expr::Paren(p) => self.tail(&p.expr),
+            Expr::Return(r) => self.tail(r.expr.as_ref().ok_or("bare return")?),
+            Expr::Call(_) => self.call_gate(e),
+            Expr::Macro(m) if path_str(&m.mac.path) == "panic" => Ok("Res.panic".into()),
+            Expr::If(i) => {
+                let c = self.cond(&i.cond)?;
+                let a = self.block(&i.then_branch.stmts)?;
+                let Some((_, els)) = &i.else_branch else {
+                    return Err("tail `if` without else".into());
+                };
+                let b = match &**els {
+                    Expr::Block(b) => self.block(&b.block.stmts)?,
+                    other => self.tail(other)?,
+                };
+                Ok(format!("(if {c} then {a} else {b})"))
+            }
+            Expr::Block(b) => self.block(&b.block.stmts),
+            _ => Err(format!("unsupported tail expression `{t}`")),
+        }
+    }
+
+    // ----------------------------------------------------------- statements
+    fn block(&mut self, stmts: &[Stmt]) -> R {
+        let Some((first, rest)) = stmts.split_first() else {
+            return Err("empty block".into());
+        };
+        match first {
+            Stmt::Local(l) => {
+                let init = l.init.as_ref().ok_or("let without initialiser")?;
+                let pat_inner = match &l.pat {
+                    Pat::Type(pt) => &*pt.pat,
+                    p => p,
+                };
+                if let Some((_, els)) = &init.diverge {
+                    // let PAT = E else { return Err(error_message); };
+                    let e = toks(els).replace(['{', '}', ';'], "");
+                    if e != ERR_RET {
+                        return Err(format!("unsupported let-else branch `{}`", toks(els)));
+                    }
+                    let scrut = self.val(&init.expr)?;
+                    let pat = self.pat(pat_inner)?;
+                    let k = self.block(rest)?;
+                    return Ok(format!("(match {scrut} with\n | {pat} => {k}\n | _ => Res.err)"));
+                }
+                let Pat::Ident(pi) = pat_inner else {
+                    return Err(format!("unsupported let pattern `{}`", toks(&l.pat)));
+                };
+                let name = pi.ident.to_string();
+                if name == "error_message" {
+                    // diagnostics only
+                    return self.block(rest);
+                }
+                if let Expr::Match(m) = &*init.expr {
+                    // the leaf-name guard table
+                    if !self.leaf_arms.is_empty() {
+                        return Err("second guard table".into());
+                    }
+                    let scrut = self.val(&m.expr)?;
+                    let n = m.arms.len();
+                    for (i, a) in m.arms.iter().enumerate() {
+                        if i + 1 == n {
+                            if !matches!(a.pat, Pat::Wild(_)) || a.guard.is_some() || !toks(&a.body).starts_with("panic!") {
+                                return Err(format!("guard table must end with `_ => panic!()`, found `{}`", toks(a)));
+                            }
+                            continue;
+                        }
+                        let Pat::Ident(x) = &a.pat else {
+                            return Err(format!("unsupported guard-table arm `{}`", toks(a)));
+                        };
+                        let x = x.ident.to_string();
+                        let Some((_, g)) = &a.guard else {
+                            return Err(format!("guard-table arm without guard `{}`", toks(a)));
+                        };
+                        let gs = toks(g);
+                        let Some(k) = gs.strip_prefix(&format!("{x}==")) else {
+                            return Err(format!("unsupported guard `{gs}`"));
+                        };
+                        if !self.is_const(k) {
+                            return Err(format!("guard compares with unknown constant {k}"));
+                        }
+                        let Expr::Lit(syn::ExprLit { lit: Lit::Str(s), .. }) = &*a.body else {
+                            return Err(format!("guard-table arm body must be a string literal: `{}`", toks(a)));
+                        };
+                        self.leaf_arms.push((k.to_string(), s.value()));
+                    }
+                    let k = self.block(rest)?;
+                    return Ok(format!(
+                        "(match lookupFirst leafNames {scrut} with\n | some {name} => {k}\n | none => Res.panic)"
+                    ));
+                }
+                let v = self.val(&init.expr)?;
+                let k = self.block(rest)?;
+                Ok(format!("(let {name} := {v};\n {k})"))
+            }
+            Stmt::Expr(Expr::If(i), _) if !rest.is_empty() && i.else_branch.is_none() => {
+                if let Expr::Let(l) = &*i.cond {
+                    // if let PAT = x { x = E; }
+                    let scrut = toks(&l.expr);
+                    let [Stmt::Expr(Expr::Assign(a), Some(_))] = &i.then_branch.stmts[..] else {
+                        return Err(format!("unsupported `if let` body `{}`", toks(&i.then_branch)));
+                    };
+                    if toks(&a.left) != scrut || !matches!(&*l.expr, Expr::Path(_)) {
+                        return Err("`if let` must reassign its scrutinee".into());
+                    }
+                    let pat = self.pat(&l.pat)?;
+                    let v = self.val(&a.right)?;
+                    let k = self.block(rest)?;
+                    return Ok(format!(
+                        "(let {scrut} := (match {scrut} with | {pat} => {v} | _ => {scrut});\n {k})"
+                    ));
+                }
+                // if C { return X; }
+                let [Stmt::Expr(r @ Expr::Return(_), _)] = &i.then_branch.stmts[..] else {
+                    return Err(format!("unsupported `if` statement body `{}`", toks(&i.then_branch)));
+                };
+                let c = self.cond(&i.cond)?;
+                let x = self.tail(r)?;
+                let k = self.block(rest)?;
+                Ok(format!("(if {c} then {x} else\n {k})"))
+            }
+            Stmt::Expr(Expr::Try(t), Some(_)) if !rest.is_empty() => {
+                let c = self.call_gate(&t.expr)?;
+                let k = self.block(rest)?;
+                Ok(format!("(Res.seq {c}\n {k})"))
+            }
+            Stmt::Expr(e, None) if rest.is_empty() => self.tail(e),
+            Stmt::Expr(e @ Expr::Return(_), Some(_)) if rest.is_empty() => self.tail(e),
+            other => Err(format!("unsupported statement `{}`", toks(other))),
+        }
+    }
+
+    /// The whole function body.
+    fn function(&mut self, stmts: &[Stmt]) -> R {
+        let mut i = 0;
+        // prelude: TypeId constants
+        while let Some(Stmt::Local(l)) = stmts.get(i) {
+            let Pat::Type(pt) = &l.pat else { break };
+            if toks(&pt.ty) != "TypeId" {
+                break;
+            }
+            let name = toks(&pt.pat);
+            let init = toks(&l.init.as_ref().ok_or("const without init")?.expr);
+            let Some(t) = init.strip_prefix("TypeId::of::<").and_then(|s| s.strip_suffix(">()")) else {
+                return Err(format!("unsupported TypeId constant `{init}`"));
+            };
+            self.consts.push((name, t.to_string()));
+            i += 1;
+        }
+        if self.consts.is_empty() {
+            return Err("no TypeId constants found".into());
+        }
+        self.body(&stmts[i..])
+    }
+
+    fn body(&mut self, stmts: &[Stmt]) -> R {
+        let Some((first, rest)) = stmts.split_first() else {
+            return Err("function body ends without the description match".into());
+        };
+        // let Some(rust_type) = TypeRegistry::get(rust_type) else { return Err(TypeMismatch{..}) };
+        if let Stmt::Local(l) = first {
+            if let Some(init) = &l.init {
+                if toks(&init.expr) == "TypeRegistry::get(rust_type)" {
+                    if toks(&l.pat) != "Some(rust_type)" || init.diverge.is_none() {
+                        return Err("unsupported registry lookup".into());
+                    }
+                    let els = toks(&init.diverge.as_ref().unwrap().1);
+                    if !els.starts_with("{returnErr(TypeMismatch{") {
+                        return Err(format!("registry lookup must fail with Err: `{els}`"));
+                    }
+                    self.registry_lookup = true;
+                    return self.body(rest);
+                }
+            }
+        }
+        // the final `match rust_type.description { … }`
+        if let Stmt::Expr(Expr::Match(m), None) = first {
+            if rest.is_empty() && toks(&m.expr) == "rust_type.description" {
+                if !self.registry_lookup {
+                    return Err("the TypeRegistry::get lookup is missing".into());
+                }
+                let mut out = String::from("(match rust_type with\n | RustTy.unknown => Res.err");
+                for a in &m.arms {
+                    if a.guard.is_some() {
+                        return Err("guard on a description arm".into());
+                    }
+                    let pat = self.pat(&a.pat)?;
+                    let body = match &*a.body {
+                        Expr::Block(b) => self.block(&b.block.stmts)?,
+                        other => self.tail(other)?,
+                    };
+                    // `rust_type` inside the arm still names the matched entry
+                    let pat = match pat.as_str() {
+                        "(RustTy.leaf _)" | "(RustTy.val _)" => pat,
+                        _ => pat,
+                    };
+                    out.push_str(&format!("\n | {pat} => {body}"));
+                }
+                out.push(')');
+                return Ok(out);
+            }
+        }
+        // ordinary statements before the match: re-use `block` on a
+        // one-statement prefix by splicing the continuation
+        match first {
+            Stmt::Local(l) if l.init.as_ref().is_some_and(|i| i.diverge.is_none()) => {
+                let init = l.init.as_ref().unwrap();
+                let Pat::Ident(pi) = &l.pat else {
+                    return Err(format!("unsupported let pattern `{}`", toks(&l.pat)));
+                };
+                let name = pi.ident.to_string();
+                if name == "error_message" {
+                    return self.body(rest);
+                }
+                let v = self.val(&init.expr)?;
+                let k = self.body(rest)?;
+                Ok(format!("(let {name} := {v};\n {k})"))
+            }
+            Stmt::Expr(Expr::If(i), _) if i.else_branch.is_none() => {
+                let Expr::Let(l) = &*i.cond else {
+                    return Err(format!("unsupported statement `{}`", toks(first)));
+                };
+                let scrut = toks(&l.expr);
+                let [Stmt::Expr(Expr::Assign(a), Some(_))] = &i.then_branch.stmts[..] else {
+                    return Err(format!("unsupported `if let` body `{}`", toks(&i.then_branch)));
+                };
+                if toks(&a.left) != scrut || !matches!(&*l.expr, Expr::Path(_)) {
+                    return Err("`if let` must reassign its scrutinee".into());
+                }
+                let pat = self.pat(&l.pat)?;
+                let v = self.val(&a.right)?;
+                let k = self.body(rest)?;
+                Ok(format!(
+                    "(let {scrut} := (match {scrut} with | {pat} => {v} | _ => {scrut});\n {k})"
+                ))
+            }
+            other => Err(format!("unsupported statement `{}`", toks(other))),
+        }
+    }
+}
+
+// ------------------------------------------------------------------ func!
+
+/// The token text of the `macro_rules! func` definition and the arities of
+/// its invocations.
+fn func_macro(file: &syn::File) -> Result<(String, Vec<usize>), String> {
+    let mut def = None;
+    let mut arities = vec![];
+    for item in &file.items {
+        let syn::Item::Macro(m) = item else { continue };
+        let name = path_str(&m.mac.path);
+        if name == "macro_rules" && m.ident.as_ref().is_some_and(|i| i == "func") {
+            def = Some(m.mac.tokens.to_string().replace(' ', ""));
+        } else if name == "func" {
+            let t = m.mac.tokens.to_string().replace(' ', "");
+            // fn(A1,A2)->R
+            let Some(inner) = t.strip_prefix("fn(").and_then(|s| s.strip_suffix(")->R")) else {
+                return Err(format!("unsupported func! invocation `{t}`"));
+            };
+            let params: Vec<&str> = inner.split(',').filter(|s| !s.is_empty()).collect();
+            let distinct: HashSet<&&str> = params.iter().collect();
+            if distinct.len() != params.len() || params.contains(&"R") {
+                return Err(format!("func! invocation with repeated parameter names `{t}`"));
+            }
+            arities.push(params.len());
+        }
+    }
+    Ok((def.ok_or("macro_rules! func not found")?, arities))
+}
+
+fn require(hay: &str, needle: &str, what: &str) -> Result<(), String> {
+    let n = needle.replace([' ', '\n'], "");
+    if hay.matches(&n).count() == 1 {
+        Ok(())
+    } else {
+        Err(format!("{what}: expected exactly one occurrence of `{needle}`"))
+    }
+}
+
+/// Position of `needle` (whitespace-free) in `hay`, which must be unique.
+fn pos(hay: &str, needle: &str, what: &str) -> Result<usize, String> {
+    require(hay, needle, what)?;
+    Ok(hay.find(&needle.replace([' ', '\n'], "")).unwrap())
+}
+
+fn gate(repo: &Path) -> R {
+    let file = find::parse(repo, "src/codegen/check.rs")?;
+    let f = find::func(&file, "check_roto_type", None)?;
+    let params: Vec<String> = f
+        .sig
+        .inputs
+        .iter()
+        .map(|a| match a {
+            syn::FnArg::Typed(pt) => toks(&pt.pat),
+            other => toks(other),
+        })
+        .collect();
+    if params != ["type_info", "rust_type", "roto_type"] {
+        return Err(format!("check_roto_type: unexpected parameters {params:?}"));
+    }
+    let mut tr = Tr::default();
+    let body = tr.function(&f.block.stmts)?;
+    if tr.leaf_arms.is_empty() {
+        return Err("leaf-name guard table not found".into());
+    }
+
+    // check_roto_type_reflect::<T> must pass the registry entry of T itself
+    let refl = find::func(&file, "check_roto_type_reflect", None)?;
+    let refl_s = toks(&refl.block);
+    require(&refl_s, "let rust_type = TypeRegistry::resolve::<T>().type_id;", "check_roto_type_reflect")?;
+    require(&refl_s, "check_roto_type(type_info, rust_type, roto_type)", "check_roto_type_reflect")?;
+
+    // ---- func! / check_args
+    let (def, arities) = func_macro(&file)?;
+    require(&def, "impl<$($a,)*$r>RotoFunc for fn($($a,)*)->$r where $($a:Value,)*$r:Value", "func! impl header")?;
+    require(&def, "type Return=$r;", "func! Return type")?;
+    let p1 = pos(
+        &def,
+        "fn check_args(type_info:&mut TypeInfo,ty:&[Type])->Result<(),FunctionRetrievalError>{let[$($a),*]=ty else{let x:&[()]=&[$(unit!($a)),*];return Err(FunctionRetrievalError::IncorrectNumberOfArguments{expected:ty.len(),got:x.len(),});};",
+        "check_args arity test",
+    )?;
+    let p2 = pos(
+        &def,
+        "let mut i=0;$(i+=1;check_roto_type_reflect::<$a>(type_info,$a).map_err(|e|FunctionRetrievalError::TypeMismatch(format!(\"argument{i}\"),e))?;)*Ok(())}",
+        "check_args per-argument loop",
+    )?;
+    if p1 >= p2 {
+        return Err("check_args: arity test must precede the argument loop".into());
+    }
+
+    // ---- Module::get_function
+    let cg = find::parse(repo, "src/codegen/mod.rs")?;
+    let gf = find::func(&cg, "get_function", Some("Module"))?;
+    let g = toks(&gf.block);
+    let steps = [
+        ("prefix", "let name = format!(\"pkg.{name}\");"),
+        ("lookup", "let function_info = self.functions.get(&name).ok_or_else(|| { FunctionRetrievalError::DoesNotExist {"),
+        ("bind", "let sig = &function_info.signature;"),
+        ("requireSignature", "let Some(sig) = &sig else { return Err(FunctionRetrievalError::DoesNotExist {"),
+        ("checkArgs", "F::check_args(&mut self.type_info, &sig.parameter_types)?;"),
+        ("checkReturn", "check_roto_type_reflect::<F::Return>(&mut self.type_info, &sig.return_type,).map_err(|e| { FunctionRetrievalError::TypeMismatch(\"the return value\".to_string(), e,) })?;"),
+        ("finish", "let func_ptr = self.inner.0.cranelift_jit.get_finalized_function(id); Ok(TypedFunc {"),
+    ];
+    let mut last = 0usize;
+    let mut step_names = vec![];
+    for (name, frag) in steps {
+        let frag = frag.replace("\"pkg.{name}\"", "\"pkg.{name}\"");
+        let p = pos(&g, &frag, &format!("get_function step {name}"))?;
+        if p < last {
+            return Err(format!("get_function: step {name} out of order"));
+        }
+        last = p;
+        step_names.push(name);
+    }
+    // nothing else may return Ok
+    if g.matches("Ok(").count() != 1 {
+        return Err("get_function: more than one Ok(..)".into());
+    }
+
+    // ---- output
+    let mut out = String::new();
+    out.push_str("/- GENERATED by /verif/extract from src/codegen/check.rs, src/codegen/mod.rs — do not edit. -/\nimport RotoV.Model.Gate\nset_option linter.unusedVariables false\nnamespace RotoV.Gen.Gate\nopen RotoV.Gate\n\n");
+    out.push_str("/-! `TypeId` constants of `check_roto_type` -/\n");
+    for (n, t) in &tr.consts {
+        out.push_str(&format!("def {n} : TypeId := TypeId.prim {}\n", lit_ident(t)));
+    }
+    out.push_str("\ndef typeIdConsts : List TypeId := [");
+    out.push_str(&tr.consts.iter().map(|c| c.0.clone()).collect::<Vec<_>>().join(", "));
+    out.push_str("]\n\n/-- the arms `x if x == K => \"name\"` in source order -/\ndef leafNames : List (TypeId × Ident) := [\n");
+    let arms: Vec<String> = tr
+        .leaf_arms
+        .iter()
+        .map(|(k, s)| format!("  ({k}, {})", lit_ident(s)))
+        .collect();
+    out.push_str(&arms.join(",\n"));
+    out.push_str("]\n\n/-- `check_roto_type`, statement by statement -/\ndef checkRotoType (type_info : TypeInfo) (rust_type : RustTy) (roto_type : RotoTy) : Res :=\n ");
+    out.push_str(&body);
+    out.push_str("\n\n/-- arities at which `func!` implements `RotoFunc` -/\ndef funcArities : List Nat := [");
+    out.push_str(&arities.iter().map(|a| a.to_string()).collect::<Vec<_>>().join(", "));
+    out.push_str("]\n\n/-- gate steps of `Module::get_function`, in source order -/\ndef getFunctionSteps : List String := [");
+    out.push_str(&step_names.iter().map(|s| format!("{s:?}")).collect::<Vec<_>>().join(", "));
+    out.push_str("]\n\nend RotoV.Gen.Gate\n");
+    Ok(out)
+}
